@@ -80,6 +80,7 @@ class ReferenceImpl(Derivable, Impl):
     def on_inherit(self, updater, bases):
 
         self.model.clear_obj(self)
+        self.refmode = bases[0].refmode     # The base may have changed
         if bases[0].has_interface():
 
             if self.refmode == "absolute":
